@@ -58,8 +58,18 @@ func itemsOf(v int) (y []byte, h chainhash.Hash, o wire.OutPoint) {
 	return itemY, hashH, outO
 }
 
+// geomFlags: the update mode of the geometry's messages ("…p": pay-to-pubkey / bare multisig only)
+func geomFlags(g string) wire.BloomUpdateType {
+	if strings.HasSuffix(g, "p") {
+		return wire.BloomUpdateP2PubkeyOnly
+	}
+	return wire.BloomUpdateAll
+}
+
 func geom(g string) (int, uint32) {
 	switch g {
+	case "8x2p": // 8 bytes, two functions, update mode P2PubkeyOnly
+		return 8, 2
 	case "2x1":
 		return 2, 1
 	case "big": // 4096 bytes, one hash function: a thousand insertions do not saturate it
@@ -85,7 +95,7 @@ func reloadBytes(g string) []byte {
 		return []byte{0x00}
 	case "big":
 		return make([]byte, 4096)
-	case "8x2":
+	case "8x2", "8x2p":
 		return make([]byte, 5)
 	case "4x8":
 		return make([]byte, 3)
@@ -103,6 +113,20 @@ func testTx() *wire.MsgTx {
 	tx.AddTxOut(wire.NewTxOut(5, script, wire.TokenData{}))
 	return tx
 }
+
+// testTxMS: one bare 1-of-1 multisig output paying the watched key (and nothing else that matches):
+// under P2PubkeyOnly its outpoint is inserted exactly as for a pay-to-pubkey output
+func testTxMS() *wire.MsgTx {
+	tx := wire.NewMsgTx(1)
+	ext := wire.OutPoint{Hash: chainhash.Hash{0x97}, Index: 3}
+	tx.AddTxIn(wire.NewTxIn(&ext, []byte{0x51}))
+	script := append(append([]byte{0x51, byte(len(itemX))}, itemX...), 0x51, 0xae) // OP_1 <x> OP_1 OP_CHECKMULTISIG
+	tx.AddTxOut(wire.NewTxOut(6, script, wire.TokenData{}))
+	return tx
+}
+
+var testTxMSMsg = testTxMS()
+var testTxMSID = testTxMSMsg.TxHash()
 
 var testTxMsg = testTx()
 var testTxID = testTxMsg.TxHash()
@@ -153,8 +177,8 @@ type model struct {
 func newModel(g string) *model {
 	n, k := geom(g)
 	m := &model{loaded: 1}
-	m.b[1] = ref.NewBloom(make([]byte, n), k, 0x1234, 1)
-	m.b[2] = ref.NewBloom(reloadBytes(g), k, 0x9999, 1)
+	m.b[1] = ref.NewBloom(make([]byte, n), k, 0x1234, byte(geomFlags(g)))
+	m.b[2] = ref.NewBloom(reloadBytes(g), k, 0x9999, byte(geomFlags(g)))
 	return m
 }
 
@@ -208,6 +232,20 @@ func (m *model) apply(op string) string {
 			rt.Inputs = append(rt.Inputs, ref.RefTxIn{PrevHash: in.PreviousOutPoint.Hash, PrevIndex: in.PreviousOutPoint.Index, SigScript: in.SignatureScript})
 		}
 		return fmt.Sprint(cur.MatchTx(rt, true, true))
+	case "MatchTxMS":
+		if cur == nil {
+			return "false"
+		}
+		rt := &ref.RefTx{TxID: testTxMSID}
+		for _, o := range testTxMSMsg.TxOut {
+			rt.Outputs = append(rt.Outputs, o.PkScript)
+		}
+		for _, in := range testTxMSMsg.TxIn {
+			rt.Inputs = append(rt.Inputs, ref.RefTxIn{PrevHash: in.PreviousOutPoint.Hash, PrevIndex: in.PreviousOutPoint.Index, SigScript: in.SignatureScript})
+		}
+		return fmt.Sprint(cur.MatchTx(rt, true, true))
+	case "MatchesOutPointMS":
+		return fmt.Sprint(cur != nil && cur.Contains(ref.OutPointBytes(testTxMSID, 0)))
 	case "MatchTxBig":
 		if cur == nil {
 			return "false"
@@ -291,8 +329,8 @@ func RunBloom(cfg BloomConfig, choose func(step int, enabled []int, runningEnabl
 	nf := max(1, cfg.Filters)
 	m0s, m1s, fs := make([]*wire.MsgFilterLoad, nf), make([]*wire.MsgFilterLoad, nf), make([]*bloom.Filter, nf)
 	for i := range fs {
-		m0s[i] = wire.NewMsgFilterLoad(make([]byte, n), k, 0x1234, wire.BloomUpdateAll)
-		m1s[i] = wire.NewMsgFilterLoad(reloadBytes(cfg.Geom), k, 0x9999, wire.BloomUpdateAll)
+		m0s[i] = wire.NewMsgFilterLoad(make([]byte, n), k, 0x1234, geomFlags(cfg.Geom))
+		m1s[i] = wire.NewMsgFilterLoad(reloadBytes(cfg.Geom), k, 0x9999, geomFlags(cfg.Geom))
 		fs[i] = bloom.LoadFilter(m0s[i])
 	}
 	hists := make([][]histOp, len(cfg.Progs))
@@ -332,6 +370,11 @@ func RunBloom(cfg BloomConfig, choose func(step int, enabled []int, runningEnabl
 					h.Result = fmt.Sprint(f.MatchesOutPoint(&o))
 				case "MatchTx":
 					h.Result = fmt.Sprint(f.MatchTxAndUpdate(tx))
+				case "MatchTxMS":
+					h.Result = fmt.Sprint(f.MatchTxAndUpdate(bchutil.NewTx(testTxMSMsg)))
+				case "MatchesOutPointMS":
+					o := wire.OutPoint{Hash: testTxMSID, Index: 0}
+					h.Result = fmt.Sprint(f.MatchesOutPoint(&o))
 				case "MatchTxBig":
 					h.Result = fmt.Sprint(f.MatchTxAndUpdate(txBig))
 				case "Reload":
